@@ -88,7 +88,7 @@ add("C21", "vcheck", "exploration", "mutation-based property testing (proptest) 
     "Valid encodings of every C20 type mutated (truncation, boundary length words, byte sets, bit flips, junk) and random byte strings, fed to 54 deserializers / typed conversions: each call must return Ok or Err.",
     "Enormous allocation = one request above 64 MiB. Endless loops over zero-sized elements are undecided, not violations.", "DESIGN 3/C21")
 add("C22", "vcheck", "exploration", RT,
-    "A corpus of 8 derived DbType/DbElement types with arbitrary field values stored singly and in batches, read back through both documented routes, one element updated through its db_id: values equal, only the updated element changes, typed searches return only that type.",
+    "A corpus of 12 derived DbType/DbElement types (optional fields in every position) with arbitrary field values stored singly and in batches, read back through both documented routes, one element updated through its db_id: values equal, only the updated element changes, typed searches return only that type.",
     "A None field is omitted on save (documented), so after an update the stored key keeps its previous value; the oracle expects exactly that.", "DESIGN 3/C22")
 
 RAFT = "schedule exploration of the real consensus code in a deterministic simulator (virtual per-node clocks, harness-owned network): proptest-generated schedules (timer ticks, delivery, loss, lost responses, duplication, reordering, partitions, client appends) plus depth-first exhaustive enumeration over a reduced action alphabet with state de-duplication; invariants checked after every action; failures shrunk to a replay schedule"
